@@ -257,12 +257,17 @@ def run(ctx):
         f = program.func(new)
         chk = [n for n in body_walk(f) if isinstance(n, ast.Call) and call_name(n) == "self.check_expression_vars"]
         dsp = [n for n in body_walk(f) if isinstance(n, ast.Call) and call_name(n) == "DispatchData"]
-        ok = len(chk) == 1 and len(dsp) == 1 and norm(chk[0].args[0]) == norm(dsp[0].args[0]) == "func_args" and chk[0].lineno < dsp[0].lineno
+        nu = program.unit(new)
+
+        def arg0(c):
+            a = program.call_args(nu, c)  # (positional or by the parameter's name)
+            return norm(a[0]) if a else None
+        ok = len(chk) == 1 and len(dsp) == 1 and arg0(chk[0]) == arg0(dsp[0]) == "func_args" and chk[0].lineno < dsp[0].lineno
         # the check happens after func_args is complete: no later store into func_args
         late = [n for n in body_walk(f) if chk and isinstance(n, (ast.Assign, ast.Call)) and getattr(n, "lineno", 0) > chk[0].lineno and
                 (("func_args[" in norm(n) and isinstance(n, ast.Assign)) or (isinstance(n, ast.Call) and call_name(n) == "func_args.update"))]
         ctx.check(ok and not late, "R08.3", new, f"{src}: filter evaluated on the complete func_args that is dispatched",
-                  msg=f"{new}: the filter is evaluated on `{norm(chk[0].args[0]) if chk else '?'}` but `{norm(dsp[0].args[0]) if dsp else '?'}` is dispatched (documented filter variables "
+                  msg=f"{new}: the filter is evaluated on `{arg0(chk[0]) if chk else '?'}` but `{arg0(dsp[0]) if dsp else '?'}` is dispatched (documented filter variables "
                   f"trigger_type/event_type/context would be undefined, or stale values of an earlier message used)", key=f"{src} filter input", node=f, rel=new.split("::")[0])
         pol = FlowPolicy(program, events=["self.dispatch"], may_raise_all=False, cancel=False)
         out = run_flow(program, new, pol)
@@ -629,6 +634,7 @@ def webhook_release_table(ctx, program, rid):
         for op, who in steps:
             pol = FlowPolicy(program, may_raise_all=False, cancel=False, summaries=summ, globals_={"WebhookTriggerDecorator": ClassV("WebhookTriggerDecorator")})
             pol.loop_unroll = 4
+            pol.track_aliases = True  # the class-level subscriber table read into a local is still that table
             ex = exits(run_flow(program, f"{cls_uid}.{op}", pol, args={"self": ObjV("dec_" + who, "WebhookTriggerDecorator")}, heap=heap))
             if len(ex) != 1 or ex[0][0] != "return":
                 bad = f"{op}({who}) ends {[d for k, c, d in ex]}"
